@@ -69,7 +69,7 @@ from harness.lib import op
 
 ID = "C12"
 LEAN = {
-    "modules": ["GfaProofs.Bridge.Cigar", "GfaProofs.Bridge.Geometry", "GfaProofs.C12", "GfaProofs.C12Orient", "GfaProofs.Bridge.PathOrient", "GfaProofs.Lemmas.CigarText"],
+    "modules": ["GfaProofs.Bridge.Cigar", "GfaProofs.Bridge.Geometry", "GfaProofs.C12", "GfaProofs.C12Orient", "GfaProofs.Bridge.PathOrient", "GfaProofs.Bridge.Canonical", "GfaProofs.Lemmas.CigarText"],
     "support": ["GfaProofs.Lemmas.Digits", "GfaModel.Cigar", "GfaModel.CigarText", "GfaModel.GraphObs"],
     "theorems": [
         "Gfa.C12.compl_compl", "Gfa.C12.refLen_compl", "Gfa.C12.queryLen_compl", "Gfa.C12.compl_length",
@@ -82,7 +82,7 @@ LEAN = {
         "Gfa.Bridge.Cigar.flip_table", "Gfa.Bridge.Cigar.len_table", "Gfa.Bridge.Cigar.compl_reverses",
         "Gfa.Bridge.Cigar.compl_pure", "Gfa.Bridge.Cigar.codes_complete", "Gfa.Bridge.Geometry.invert_table",
         "Gfa.Bridge.Geometry.link_ends",
-        "Gfa.cigar_parse_print", "Gfa.aln_parse_print",
+        "Gfa.cigar_parse_print", "Gfa.aln_parse_print", "Gfa.Bridge.Canonical.isCanonical_eq",
     ],
 }
 RULE = ("random links over a 5-name pool (self-links, hairpins), CIGARs of 0-4 operations over MIDP=XH (10% also S/N, "
